@@ -179,7 +179,128 @@ func runOptsSeq(x *C16Case, defaults, callOpts []OptEntry, nilAt int, followUp b
 	return o, got, "", nil
 }
 
+// ---------------------------------------------------------------------------
+// Converters are options too: "Any conflicting arguments given on Call will
+// override these args. This can be used to provide some initial values,
+// converters, etc." (NewFunc). Two converters conflict when they have the same
+// Go function type -- the call graph can hold only one function per type. A
+// converter given at Call therefore takes the place of a default converter of
+// the same type.
+
+type C16ConvCase struct {
+	From      int    `json:"from"`
+	To        int    `json:"to"`
+	InForm    string `json:"inForm"`
+	OutForm   string `json:"outForm"`
+	NamedOut  bool   `json:"namedOut,omitempty"`
+	Defaults  int    `json:"defaults"`      // number of same-typed converters given to NewFunc
+	AtCall    int    `json:"atCall"`        // number given to Call (>= 1)
+	Raw       bool   `json:"raw,omitempty"` // hand the call-time converter over as a plain Go function
+	OtherConv bool   `json:"otherConv,omitempty"`
+}
+
+func evalC16Conv(c *engine.Case) engine.Verdict {
+	var v engine.Verdict
+	var x C16ConvCase
+	if err := c.GetX(&x); err != nil {
+		v.Failf("bad case: %v", err)
+		return v
+	}
+	v.Class("converter-override")
+	v.NonTrivial = x.Defaults > 0
+	out := engine.Label{Type: x.To, Dyn: x.To}
+	if x.NamedOut {
+		out.Name = "p"
+	}
+	mk := func(id int) *engine.FuncSpec {
+		return &engine.FuncSpec{ID: id, In: []engine.Label{{Type: x.From, Dyn: x.From}}, InForm: x.InForm, Out: []engine.Label{out}, OutForm: x.OutForm}
+	}
+	w := engine.NewWorld()
+	var dargs, cargs []argmapper.Arg
+	id := 0
+	for i := 0; i < x.Defaults; i++ {
+		id++
+		f, err := w.Realize(mk(id))
+		if err != nil {
+			v.Failf("setup: %v", err)
+			return v
+		}
+		dargs = append(dargs, argmapper.ConverterFunc(f))
+	}
+	firstCall := id + 1
+	for i := 0; i < x.AtCall; i++ {
+		id++
+		fs := mk(id)
+		if x.Raw {
+			cargs = append(cargs, argmapper.Converter(w.MakeGoFunc(fs)))
+			w.RegisterSpec(fs)
+			continue
+		}
+		f, err := w.Realize(fs)
+		if err != nil {
+			v.Failf("setup: %v", err)
+			return v
+		}
+		cargs = append(cargs, argmapper.ConverterFunc(f))
+	}
+	if x.OtherConv {
+		// an unrelated converter of another type, as a default
+		id++
+		o := &engine.FuncSpec{ID: id, In: []engine.Label{{Type: x.To, Dyn: x.To}}, InForm: engine.FormPos, Out: []engine.Label{{Type: x.From, Dyn: x.From}}, OutForm: engine.FormPos}
+		if f, err := w.Realize(o); err == nil {
+			dargs = append(dargs, argmapper.ConverterFunc(f))
+		}
+	}
+	tgt := &engine.FuncSpec{ID: engine.TargetID, In: []engine.Label{out}, InForm: engine.FormStruct, OutForm: engine.FormPos}
+	if !x.NamedOut {
+		tgt.InForm = engine.FormPos
+	}
+	f, err := w.Realize(tgt, dargs...)
+	if err != nil {
+		v.Failf("setup: %v", err)
+		return v
+	}
+	in := engine.Input{L: engine.Label{Type: x.From, Dyn: x.From}, Tok: 1}
+	w.RegisterInput(in)
+	cargs = append(cargs, engine.InputArg(in), engine.Quiet())
+	o := w.Call(f, cargs)
+	if o.Panic != "" || o.Err != nil {
+		v.Failf("call failed: %s %.150s", o.Panic, o.ErrS)
+		return v
+	}
+	ran := 0
+	for _, ev := range o.Events {
+		if ev.Func == engine.TargetID {
+			continue
+		}
+		ran = ev.Func
+	}
+	if x.Defaults > 0 && ran < firstCall {
+		v.Failf("the default converter f%d was executed although a converter of the same function type (f%d) was given at Call: options given at Call override defaults", ran, firstCall)
+	}
+	if ran == 0 {
+		v.Failf("no converter executed")
+	}
+	return v
+}
+
+func genC16Conv(g engine.G) *engine.Case {
+	perm := rapidPerm(g, []int{0, 1, 2, 3, 4, 5})
+	x := C16ConvCase{From: perm[0], To: perm[1], InForm: engine.GenForm(g), OutForm: engine.GenForm(g),
+		Defaults: g.Int(0, 2), AtCall: g.Int(1, 2), Raw: g.Pct(30), OtherConv: g.Pct(30)}
+	if g.Pct(40) {
+		x.NamedOut = true
+		x.OutForm = engine.Pick(g, []string{engine.FormStruct, engine.FormPtr})
+	}
+	c := &engine.Case{Note: "conv"}
+	c.SetX(&x)
+	return c
+}
+
 func evalC16(c *engine.Case) engine.Verdict {
+	if c.Note == "conv" {
+		return evalC16Conv(c)
+	}
 	var v engine.Verdict
 	var x C16Case
 	if err := c.GetX(&x); err != nil {
@@ -379,6 +500,9 @@ func caseVariant(g engine.G, s string) string {
 }
 
 func genC16(g engine.G) *engine.Case {
+	if g.Pct(8) {
+		return genC16Conv(g)
+	}
 	x := C16Case{NilOpt: -1}
 	names := []string{"a", "b", "cd", "efg"}
 	np := g.Int(1, 4)
